@@ -47,6 +47,19 @@ Theorem C02_decoder_consumes_wire_size :
 Proof. exact consumed_b. Qed.
 Print Assumptions C02_decoder_consumes_wire_size.
 
+(* the same per decoded type: only the types the decoder can reach need to be F1-free *)
+Theorem C02_decoder_consumes_wire_size_from :
+  forall (A : ast) (md : module_ir) (n : string) (t : ast_type) (fuel : nat) (s : st),
+    gen A = EOk md -> sup4_b A = true -> nof1_from_b A n = true -> get_type A n = Some t ->
+    bytes_ok (s_rem s) ->
+    match dec md fuel n s with
+    | Ok v s' => wsz md v = Some (remaining s - remaining s') /\ remaining s' <= remaining s
+    | Panic _ => False
+    | _ => True
+    end.
+Proof. exact consumed_from_b. Qed.
+Print Assumptions C02_decoder_consumes_wire_size_from.
+
 Theorem C02_wsz_mult4 :
   forall (A : ast) (md : module_ir),
     gen A = EOk md -> wf_size A ->
